@@ -91,6 +91,7 @@ def rules(model: Model, tier: str) -> List[RuleResult]:
 
     _check_batchdims(model, B)
     _check_zero_alloc(model, Z)
+    _zero_rhs_shortcut(model, Z)
     from ..rules import c01_layout
     N = RuleResult(PROP, "C01-N", "normal-equation fallback applies the same adjoint map to the operator and to the right-hand side", min_instances=3)
     E = RuleResult(PROP, "C01-E", "shift/column layout of the shifted systems, exhaustive over batch patterns in the shape domain", min_instances=2)
@@ -462,6 +463,51 @@ def _check_zero_alloc(model: Model, Z: RuleResult):
                     Z.bad(f, enclosing_stmt(n), "shape of a zero / initial-guess allocation is not (*_get_batchdims(A,B,E,M), nr, ncols): %s" % kind, what=what)
         if nalloc == 0:
             Z.bad(f, st, "the broadcast batch shape is computed but no zero / initial-guess allocation uses it")
+
+
+def _zero_rhs_shortcut(model: Model, Z: RuleResult):
+    """The all-zero right-hand-side shortcut of solve_torchfcn.forward allocates the solution itself: its batch shape must be the broadcast
+    of ALL FOUR operands (_get_batchdims(A, B, E, M)) - a shape built from A and B alone drops the batch axes that only E or M carry,
+    and the zero case then returns another shape than every other right-hand side."""
+    fw = model.func(SOLVE_PUB, "solve_torchfcn.forward")
+    gb = model.func(SOLVE_IMPL, "_get_batchdims")
+    defs = function_defs(fw.node)
+    from ..model import effective_conditions
+    from ..flow import def_use_closure, names_loaded
+    found = 0
+    for c in own_nodes(fw.node):
+        if not (isinstance(c, ast.Call) and ast.unparse(c.func) in ("torch.zeros", "torch.zeros_like", "B.new_zeros") or
+                (isinstance(c, ast.Call) and isinstance(c.func, ast.Attribute) and c.func.attr == "new_zeros")):
+            continue
+        conds = effective_conditions(c)
+        if not any("== 0" in t and pol for t, pol in conds):
+            continue
+        found += 1
+        shape_args = list(c.args[:1]) if ast.unparse(c.func) != "torch.zeros" else list(c.args)
+        names = set()
+        for a in shape_args:
+            names |= names_loaded(a)
+        closure_nodes = [a for a in shape_args]
+        seen = set()
+        work = list(names)
+        while work:
+            nm = work.pop()
+            if nm in seen:
+                continue
+            seen.add(nm)
+            for d in defs.get(nm, []):
+                if isinstance(d, ast.AST):
+                    closure_nodes.append(d)
+                    work.extend(names_loaded(d))
+        calls = [x for n_ in closure_nodes for x in ast.walk(n_) if isinstance(x, ast.Call) and resolve_call(model, fw, x) is gb]
+        ok = any([ast.unparse(a) for a in x.args] == ["A", "B", "E", "M"] for x in calls)
+        if ok:
+            Z.ok(fw.fq, "zero right-hand side: the solution is allocated with the batch shape _get_batchdims(A, B, E, M)")
+        else:
+            Z.bad(fw, enclosing_stmt(c), "the all-zero solution of the zero right-hand-side shortcut must have the batch shape _get_batchdims(A, B, E, M): a shape from "
+                  "fewer operands drops batch axes that only E or M carry")
+    if found == 0:
+        Z.note("solve_torchfcn.forward has no zero right-hand-side shortcut")
 
 
 def _dim_role(e: ast.AST, defs, depth=0) -> str:
